@@ -245,6 +245,31 @@ def run_case(ctx, case):
         bb = b.reshape(n, -1) if case["seed"] % 2 else b
         b_other = (P.rng_for("c13reuse", case["seed"]).standard_normal(bb.shape) * max(float(np.abs(bb).max()), 1e-300)).astype(bb.dtype)
         reuse_checks(ctx, lambda: inv(cola.ops.Dense(M), GMRES(max_iters=m_, tol=case["tol"], x0=x0m_)), bb, b_other, "inv(GMRES)", preds)
+    if case["via"] == "inv" and n <= 40 and not case.get("opview") and np.all(np.isfinite(b2)) and float(np.linalg.norm(b2)) > 0 \
+            and M.dtype.kind in "fc" and M.dtype.itemsize >= 8 and np.linalg.cond(Mw) <= 1e3:
+        # views of the lazy inverse obtained through GMRES run to the full dimension (the converged operator is the inverse
+        # matrix to rounding): .T @ b solves A^T x = b, .H @ b solves A^H x = b, b @ inv(A, GMRES) is the left solve
+        from cola.linalg import GMRES, inv
+        bv = np.asarray(b, dtype=M.dtype if (np.iscomplexobj(M) or not np.iscomplexobj(b)) else b.dtype)
+        if np.asarray(b).dtype.kind in "fc":
+            bv = np.asarray(b)
+        Av = ctx.call(inv, cola.ops.Dense(M), GMRES(max_iters=n + 2, tol=1e-13))
+        bw_ = bv.astype(wide)
+        if not is_err(Av):
+            for nm, f, want in (("T", lambda: Av.T @ bv, np.linalg.solve(Mw.T, bw_)), ("H", lambda: Av.H @ bv, np.linalg.solve(Mw.conj().T, bw_)),
+                                ("left", lambda: bv.T @ Av, np.linalg.solve(Mw.T, bw_).T)):
+                g = ctx.call(f)
+                if is_err(g):
+                    ctx.check("views-of-the-lazy-inverse-solve-the-transposed-system", False, site="inv(GMRES)", preds=dict(preds, view=nm), detail={"error": repr(g)})
+                    continue
+                g = np.asarray(g)
+                if g.shape != want.shape or not np.all(np.isfinite(g)):
+                    err = np.inf
+                else:
+                    gw, ww = (g.reshape(n, -1), want.reshape(n, -1)) if nm != "left" else (g.T.reshape(n, -1), want.T.reshape(n, -1))
+                    err = float(np.max(np.linalg.norm(gw - ww, axis=0) / np.maximum(np.linalg.norm(ww, axis=0), 1e-300)))
+                ctx.check("views-of-the-lazy-inverse-solve-the-transposed-system", bool(err <= 1e-4), site="inv(GMRES)", preds=dict(preds, view=nm),
+                          detail={"rel_err": err, "shape": list(g.shape)})
     prev = None
     eps = 2.3e-16
     for m in ms:
